@@ -107,12 +107,13 @@ def ueOr (s : State) (r : Req) : Ue :=
   | some u => u
   | none => { supi := r.supi }
 
-theorem create_ok (s : State) (r : Req) (nf : Bytes) (hnf : r.nf = some nf) (hp : supiAccepted r.supi = true) :
+theorem create_ok (s : State) (r : Req) (nf : Bytes) (hnf : r.nf = some nf) (hp : supiAccepted r.supi = true)
+    (hb : r.bad = false) :
     ∃ (ue' : Ue) (rec1 : Record) (sid : Bytes), (create s r).2.status = 201 ∧ (create s r).1.ues = putUe s.ues ue' ∧
       rec1.usage = toRecUsage r.usages ∧ ue'.records = (ueOr s r).records ++ [rec1] ∧
       ue'.cdr = setSid (ueOr s r).cdr sid (ueOr s r).records.length ∧ ue'.supi = (ueOr s r).supi := by
   unfold create ueOr
-  simp only [hnf, hp, not_true_eq_false, if_false]
+  simp only [hnf, hp, hb, not_true_eq_false, if_false, Bool.false_eq_true]
   refine ⟨_, _, _, trivial, rfl, ?_, rfl, rfl, rfl⟩
   simp [appendUsage]
 
@@ -125,6 +126,32 @@ theorem create_rej (s : State) (r : Req) (h : r.nf = none ∨ supiAccepted r.sup
     | none => rfl
     | some nf => simp [h]
 
+/-- a create that OpenCDR refuses (malformed PLMN id, incomplete PDU session information): answered 400; by then the
+    subscriber context exists, its notification address is the request's, and a session-based create has used up
+    a sequence number - accounts, reservations, records and session map are as before -/
+theorem create_bad (s : State) (r : Req) (nf : Bytes) (hnf : r.nf = some nf) (hp : supiAccepted r.supi = true)
+    (hb : r.bad = true) :
+    create s r = ({ s with ues := putUe s.ues { ueOr s r with notifyUri := r.uri },
+                           sessionSeq := if r.one then s.sessionSeq else s.sessionSeq + 1 }, { status := 400 }) := by
+  unfold create ueOr
+  simp only [hnf, hp, hb, not_true_eq_false, if_false, if_true]
+  rfl
+
+theorem ueOr_supi (s : State) (r : Req) : (ueOr s r).supi = r.supi := by
+  unfold ueOr; cases hf : findUe s.ues r.supi with
+  | none => rfl
+  | some u => simp only; exact findUe_supi hf
+
+theorem ueOr_idxOK {s : State} (hinv : AllIdxOK s) (r : Req) : IdxOK (ueOr s r) := by
+  unfold ueOr; cases hf : findUe s.ues r.supi with
+  | none => intro p hp'; simp at hp'
+  | some u => simp only; exact idxOK_of_find hinv hf
+
+theorem usageOf_ueOr (s : State) (r : Req) : usageOf s r.supi = ueUsage (ueOr s r) := by
+  unfold usageOf ueOr; cases hf : findUe s.ues r.supi with
+  | none => simp [ueUsage]
+  | some u => rfl
+
 /-- an accepted create: the subscriber's context gets one more record holding the request's usage -/
 theorem usage_create (guard : SplitGuard) (s : State) (r : Req) (supi : Bytes) (hinv : AllIdxOK s) :
     List.Perm (usageOf (create s r).1 supi) (usageOf s supi ++ contributed guard s (.create r) supi) ∧
@@ -132,19 +159,27 @@ theorem usage_create (guard : SplitGuard) (s : State) (r : Req) (supi : Bytes) (
   unfold contributed
   by_cases hacc : ∃ nf, r.nf = some nf ∧ supiAccepted r.supi = true
   · obtain ⟨nf, hnf, hp⟩ := hacc
-    obtain ⟨ue', rec1, sid, hst, hues, hru, hrecs, hcdr, hsup'⟩ := create_ok s r nf hnf hp
-    have hsupi : (ueOr s r).supi = r.supi := by
-      unfold ueOr; cases hf : findUe s.ues r.supi with
-      | none => rfl
-      | some u => simp only; exact findUe_supi hf
-    have hidx : IdxOK (ueOr s r) := by
-      unfold ueOr; cases hf : findUe s.ues r.supi with
-      | none => intro p hp'; simp at hp'
-      | some u => simp only; exact idxOK_of_find hinv hf
-    have hprev : usageOf s r.supi = ueUsage (ueOr s r) := by
-      unfold usageOf ueOr; cases hf : findUe s.ues r.supi with
-      | none => simp [ueUsage]
-      | some u => rfl
+    have hsupi := ueOr_supi s r
+    have hidx := ueOr_idxOK hinv r
+    have hprev := usageOf_ueOr s r
+    cases hb : r.bad with
+    | true =>
+      -- refused by OpenCDR: nothing is recorded
+      have e := create_bad s r nf hnf hp hb
+      have hues : (create s r).1.ues = putUe s.ues { ueOr s r with notifyUri := r.uri } := by rw [e]
+      have hst : (create s r).2.status = 400 := by rw [e]
+      have hidx' : IdxOK { ueOr s r with notifyUri := r.uri } := hidx
+      refine ⟨?_, allIdx_ues hinv hidx' hues⟩
+      simp only [hst, show ¬ (400 = 201) by decide, false_and, if_false, List.append_nil]
+      by_cases hs : r.supi = supi
+      · subst hs
+        have := usageOf_ues_same (s := s) hues
+        simp only [hsupi] at this
+        rw [this, hprev]
+        exact List.Perm.refl _
+      · rw [usageOf_ues_other hues supi (by simp only [hsupi]; exact fun h => hs h.symm)]
+    | false =>
+    obtain ⟨ue', rec1, sid, hst, hues, hru, hrecs, hcdr, hsup'⟩ := create_ok s r nf hnf hp hb
     have hidx' : IdxOK ue' := by
       intro p hp'
       rw [hcdr] at hp'
@@ -348,5 +383,105 @@ theorem usage_run (guard : SplitGuard) (supi : Bytes) (ops : List Op) :
 
 theorem allIdx_init (accts : Abmf.Store) (tariffs : List Rating.Tariff) : AllIdxOK { accts := accts, tariffs := tariffs } := by
   intro u hu; simp at hu
+
+
+/-! ### rejected requests -/
+
+/-- what a subscriber context holds of money and records: reservations / rating modes, session map, records
+    (a subscriber without context holds nothing) -/
+def ueView (s : State) (supi : Bytes) : List (Int × RgState) × List (Bytes × Nat) × List Record :=
+  match findUe s.ues supi with
+  | some u => (u.groups, u.cdr, u.records)
+  | none => ([], [], [])
+
+/-- a request answered 4xx leaves the state as it was, unless it is a create that OpenCDR refused -/
+theorem rejected_same (guard : SplitGuard) (s : State) (op : Op)
+    (h4 : (step guard s op).2.status = 400 ∨ (step guard s op).2.status = 404)
+    (hnb : ∀ r, op = .create r → r.bad = false) : (step guard s op).1 = s := by
+  cases op with
+  | create r =>
+    have hb := hnb r rfl
+    simp only [step, create, hb] at h4 ⊢
+    split
+    · rfl
+    · split
+      · rfl
+      · rename_i hnf hp
+        simp only [hnf, hp, if_false] at h4
+        simp at h4
+  | update sid r =>
+    simp only [step, update] at h4 ⊢
+    split
+    · rfl
+    · rename_i ue hu
+      split
+      · rfl
+      · rename_i idx hl
+        simp only [hu, hl] at h4
+        simp at h4
+  | release sid r =>
+    simp only [step, release] at h4 ⊢
+    split
+    · rfl
+    · rename_i ue hu
+      split
+      · rfl
+      · rename_i idx hl
+        simp only [hu, hl] at h4
+        simp at h4
+  | recharge info =>
+    simp only [step, recharge] at h4 ⊢
+    split
+    · rename_i ueId rgStr hsp
+      split
+      · rfl
+      · rename_i rg hp
+        split
+        · rfl
+        · rename_i ue hu
+          simp only [hsp, hp, hu] at h4
+          simp at h4
+    · rfl
+  | credit a b c => simp [step] at h4
+
+/-- every request answered 4xx - the creates refused by OpenCDR included - leaves the accounts, the tariffs, the
+    record numbering and every subscriber's reservations, rating modes, session map and records as they were -/
+theorem rejected_view (guard : SplitGuard) (s : State) (op : Op)
+    (h4 : (step guard s op).2.status = 400 ∨ (step guard s op).2.status = 404) :
+    (step guard s op).1.accts = s.accts ∧ (step guard s op).1.tariffs = s.tariffs ∧
+    (step guard s op).1.localSeq = s.localSeq ∧ ∀ supi, ueView (step guard s op).1 supi = ueView s supi := by
+  by_cases hnb : ∀ r, op = .create r → r.bad = false
+  · rw [rejected_same guard s op h4 hnb]; exact ⟨rfl, rfl, rfl, fun _ => rfl⟩
+  · have : ∃ r, op = .create r ∧ r.bad = true := by
+      apply Classical.byContradiction
+      intro hne
+      apply hnb
+      intro r hr
+      cases hb : r.bad with
+      | false => rfl
+      | true => exact absurd ⟨r, hr, hb⟩ hne
+    obtain ⟨r, rfl, hb⟩ := this
+    cases hnf : r.nf with
+    | none => rw [show step guard s (.create r) = create s r from rfl, create_rej s r (Or.inl hnf)]; exact ⟨rfl, rfl, rfl, fun _ => rfl⟩
+    | some nf =>
+      cases hp : supiAccepted r.supi with
+      | false => rw [show step guard s (.create r) = create s r from rfl, create_rej s r (Or.inr hp)]; exact ⟨rfl, rfl, rfl, fun _ => rfl⟩
+      | true =>
+        rw [show step guard s (.create r) = create s r from rfl, create_bad s r nf hnf hp hb]
+        refine ⟨rfl, rfl, rfl, ?_⟩
+        intro supi
+        unfold ueView
+        simp only
+        by_cases hs : supi = r.supi
+        · subst hs
+          have h1 : ({ ueOr s r with notifyUri := r.uri } : Ue).supi = r.supi := ueOr_supi s r
+          have key := findUe_putUe_same s.ues { ueOr s r with notifyUri := r.uri }
+          rw [h1] at key
+          rw [key]
+          unfold ueOr
+          cases hf : findUe s.ues r.supi <;> rfl
+        · rw [findUe_putUe_other _ _ _ (by
+            show supi ≠ ({ ueOr s r with notifyUri := r.uri } : Ue).supi
+            rw [show ({ ueOr s r with notifyUri := r.uri } : Ue).supi = r.supi from ueOr_supi s r]; exact hs)]
 
 end Chf.Charging
